@@ -119,7 +119,7 @@ pub fn describe(c: &BCfg) -> J {
 
 pub fn execute(c: &BCfg, seed: u64) -> W {
     let ctx = Ctx::new(ScriptSrc::Table(c.scripts.clone()), 1, seed, c.perturb, false);
-    let w = W::new(ctx, vec![StoreCfg { policy: c.policy, cap: c.cap, n_red: c.n_red, n_mw: c.n_mw, name: "rsvb".into() }]);
+    let w = W::new(ctx, vec![StoreCfg { policy: c.policy, cap: c.cap, n_red: c.n_red, n_mw: c.n_mw, name: "rsvb".into(), ctor: 0 }]);
     let mut keep = Vec::new();
     for _ in 0..c.n_sub {
         keep.push(w.add_direct(0, NOGATE, false, true, false));
